@@ -97,6 +97,7 @@ var shapes = map[string]*shape{
 	"Chain":        stc("map", fd("A", shStr).as("B"), fd("B", shStr).as("C"), fd("C", shStr).as("A")),
 	"Clash":        stc("map", fd("A", stc("map", fd("N", shInt))), fd("B", stc("map", fd("N", shInt), fd("M", shStr)))),
 	"HasMapAny":    stc("map", fd("M", mpo(shAny))),
+	"HasMapN":      stc("map", fd("M", &shape{kind: "map", elem: shInt, elemNul: true}), fd("LL", lst(lst(shStr, false), false)), fn("NL", lst(shInt, false))),
 	"BigU":         stc("map", fd("U", shInt), fd("L", lst(shInt, false)), fd("N", lst(lst(shInt, false), false))),
 	"pk1.Foo":      stc("map", fd("A", shStr), fd("N", shInt)),
 	"pk2.Foo":      stc("map", fd("X", shBool), fd("L", lst(shInt, false))),
